@@ -101,19 +101,20 @@ impl Cli {
             mcx::machinery(&format!("CLI binary {} missing after build", bin.display()));
         }
         // scratch XDG_CONFIG_HOME with the shipped configuration
-        let xdg = PathBuf::from(format!("{work}/cli-xdg-{id}"));
+        // private to this process: concurrent runs of the same check must not share scratch state
+        let pid = std::process::id();
+        let xdg = PathBuf::from(format!("{work}/cli-scratch-{id}-{pid}/xdg"));
         let cfg = xdg.join("cwe_checker");
         std::fs::create_dir_all(&cfg).unwrap_or_else(|e| mcx::machinery(&format!("cannot create {}: {e}", cfg.display())));
         for f in ["config.json", "lkm_config.json"] {
             std::fs::copy(format!("{repo}/src/{f}"), cfg.join(f)).unwrap_or_else(|e| mcx::machinery(&format!("cannot install {f}: {e}")));
         }
-        let scratch = PathBuf::from(format!("{work}/cli-scratch-{id}"));
-        let _ = std::fs::remove_dir_all(&scratch);
+        let scratch = PathBuf::from(format!("{work}/cli-scratch-{id}-{pid}/slots"));
         std::fs::create_dir_all(&scratch).unwrap_or_else(|e| mcx::machinery(&format!("cannot create {}: {e}", scratch.display())));
         let preload = if with_preload {
             let dir = format!("{work}/preload");
             std::fs::create_dir_all(&dir).ok();
-            let so = format!("{dir}/getrandom-{id}.so");
+            let so = format!("{dir}/getrandom-{id}-{}.so", std::process::id());
             let out = Command::new("cc")
                 .args(["-O2", "-shared", "-fPIC", "-o", &so, "/verif/mc/preload/getrandom.c"])
                 .output()
@@ -125,6 +126,10 @@ impl Cli {
         } else {
             None
         };
+        // run a private snapshot of the binary: a concurrent rebuild of target-cli must not change it under us
+        let private_bin = scratch.parent().unwrap().join("cwe_checker");
+        std::fs::copy(&bin, &private_bin).unwrap_or_else(|e| mcx::machinery(&format!("cannot copy the CLI binary: {e}")));
+        let bin = private_bin;
         let versions = props::ccl::get_modules().iter().map(|m| (m.name.to_string(), m.version.to_string())).collect();
         Cli { bin, xdg, scratch, preload, timeout: Duration::from_secs(120), versions, counter: AtomicU64::new(0), cpu_user_ms: AtomicU64::new(0) }
     }
@@ -132,6 +137,18 @@ impl Cli {
     /// The known checks a warning can come from: those that report under its name and have its version.
     pub fn owners(&self, w: &Warning) -> Vec<String> {
         self.versions.iter().filter(|(m, ver)| **ver == w.version && reports_as(m).contains(&w.name.as_str())).map(|(m, _)| m.clone()).collect()
+    }
+
+    /// Remove this process's scratch directory (call before `Ctx::finish`, which exits).
+    pub fn cleanup(&self) {
+        if std::env::var_os("VERIF_CLI_KEEP").is_none() {
+            if let Some(root) = self.scratch.parent() {
+                let _ = std::fs::remove_dir_all(root);
+            }
+            if let Some(so) = &self.preload {
+                let _ = std::fs::remove_file(so);
+            }
+        }
     }
 
     /// A fresh private directory for one input.
